@@ -266,7 +266,9 @@ type histProg struct {
 }
 
 func genHistory(t *tape.Tape, uniq string) histProg {
-	switch t.Pick(3, 1, 3, 3, 1, 2, 2, 2, 1, 2, 1, 3, 3, 2, 2, 3, 3) {
+	switch t.Pick(3, 1, 3, 3, 1, 2, 2, 2, 1, 2, 1, 3, 3, 2, 2, 3, 3, 2) {
+	case 17:
+		return histProg{kind: "rich-syntax-run", faultAt: -1, src: richSyntax}
 	case 15:
 		return histProg{kind: "parse-abandoned", faultAt: -1, src: brokenSyntax(t, false)}
 	case 16:
@@ -343,7 +345,7 @@ func genHistory(t *tape.Tape, uniq string) histProg {
 // chains, literals of every kind, `}` directly followed by a string, ...). It serves as a
 // probe, and - cut or corrupted at a tape-chosen place - as the source of histories whose
 // parse is abandoned in an arbitrary lexer/parser state.
-const richSyntax = "# rich syntax probe\no := {a: 1, \"b\": 2, 'c: 3}\nf := {|x, k: \"d\"| \"#{x}-#{k}\"}\nassertEq({a: 1}.a.S, \"1\")\n[f(1), f(2, k: \"e\"), {|x| x}(\"a\")].p\ns := \"pre #{o.a + 1} mid #{o['b]} post\"\ns.p\nr := `raw #{no} \"q\"`\nr.p\nm := %{1: \"x\", \"k\": [1, 2], [3]: {z: nil}}\nm.p\n[1, 2, 3]\n  |@{|i| i * 2}\n  |$(0){|acc, i| acc + i}\n  |.p\nt := (1:10:3).A\n[t, ?a, 'sym, 0x1f, 1e2, 1.5, -2, !true].p\ng := <{|i| yield i if i < 2; recur(i + 1)}>\ng.new(0).A.p\nh := m{|y| [self, y]}\n{h: h}.h(1).p\n[1, 2]@{|x| \"#{x}!\"}.p\n\"a,b\".split(sep: \",\")@uc.p\n(1 if o.a == 1 else 2).p\nnil&.nosuch.p\n{|x| x}(\"}\").p\n\"done }\" .p\n"
+const richSyntax = "# rich syntax probe\no := {a: 1, \"b\": 2, 'c: 3}\nf := {|x, k: \"d\"| \"#{x}-#{k}\"}\nassertEq({a: 1}.a.S, \"1\")\n[f(1), f(2, k: \"e\"), {|x| x}(\"a\")].p\ns := \"pre #{o.a + 1} mid #{o['b]} post\"\ns.p\nr := `raw #{no} \"q\"`\nr.p\nm := %{1: \"x\", \"k\": [1, 2], [3]: {z: nil}}\nm.p\n[1, 2, 3]\n  |@{|i| i * 2}\n  |$(0){|acc, i| acc + i}\n  |.p\nt := (1:10:3).A\n[t, ?a, 'sym, 0x1f, 1e2, 1.5, -2, !true].p\ng := <{|i| yield i if i < 2; recur(i + 1)}>\ng.new(0).A.p\nh := m{|y| [self, y]}\n{h: h}.h(1).p\n[1, 2]@{|x| \"#{x}!\"}.p\n\"a,b\".split(sep: \",\")@uc.p\n(1 if o.a == 1 else 2).p\nnil&.nosuch.p\n{|x| x}(\"}\").p\n\"done }\" .p\ng0 := {|| \\0}\ng0().p\nh0 := {|cb| [cb, \\0.len]}\nh0() {|x| x + 1}.p\ng0().p\no2 := {m: m{|| \\0.len}, n: m{|cb| [cb.nil?, \\0.len]}}\n[o2.m(), o2.n() {|y| y}, o2.m()].p\n<{|| yield 1}>.new().next.p\n{|| 2}().p\n"
 
 // brokenSyntax cuts richSyntax at a tape-chosen byte or drops a stray token into it.
 func brokenSyntax(t *tape.Tape, noBackquote bool) string {
@@ -975,10 +977,13 @@ func (c *c19Check) runTestHistory(seed, run uint64, t *tape.Tape, s *C19Stats) [
 			"1.try.{|x| _}.A\nhx1 := 5\n",
 			"Int.bear({twice: m{self * 2}})\nq := 7\n",
 			"S := {|i| i}\nS1 := 4\n\"hist\".p\n",
-			"", "",
-		}[t.Intn(9)]
+			"", "", "rich",
+		}[t.Intn(10)]
 		if src == "" {
 			src = handledSyntax(t)
+		}
+		if src == "rich" {
+			src = richSyntax
 		}
 		os.WriteFile(filepath.Join(dirH, fmt.Sprintf("a%d_hist_test.pangaea", i+1)), []byte(src), 0o644)
 		hist = append(hist, src)
